@@ -141,6 +141,76 @@ def prop(case, r):
             r.check(len(accepted) == N, 'step-count', f'{len(accepted)} accepted steps, expected {N} (({Tend!r}-{t0!r})/{dt!r} = {rr!r}, num_procs={case["num_procs"]}) last_start={accepted[-1][1]["time"]!r}')
 
 
+# ----------------------------------------------------------------------------------------------- ParaDiag controller
+def prop_paradiag(case, r):
+    """controller_ParaDiag_nonMPI documents (with a warning) that it solves to the end of its block, so Tend is a whole number of blocks here"""
+    from pySDC.implementations.controller_classes.controller_ParaDiag_nonMPI import controller_ParaDiag_nonMPI
+    from pySDC.implementations.problem_classes.TestEquation_0D import testequation0d
+    from pySDC.implementations.sweeper_classes.ParaDiagSweepers import QDiagonalization
+
+    Ln, nb, dt, t0 = case['n_steps'], case['nblocks'], case['dt'], case['t0']
+    lam = np.array([complex(a, b) for a, b in case['lambdas']])
+    restol = 1e-11
+    desc = {
+        'problem_class': testequation0d, 'problem_params': {'lambdas': lam, 'u0': 1.0}, 'sweeper_class': QDiagonalization,
+        'sweeper_params': {'num_nodes': case['num_nodes'], 'quad_type': 'RADAU-RIGHT'}, 'level_params': {'dt': dt, 'restol': restol}, 'step_params': {'maxiter': 60},
+    }  # fmt: skip
+    log = []
+
+    def capture(name, step, lvl):
+        if name in ('pre_step', 'post_step'):
+            L = step.levels[0]
+            return {'u0': None if L.u[0] is None else np.array(L.u[0], copy=True), 'uend': None if L.uend is None else np.array(L.uend, copy=True)}
+
+    F.Recorder.reset(capture=capture)
+    ctrl = controller_ParaDiag_nonMPI(num_procs=Ln, controller_params=F.quiet_controller_params(alpha=case['alpha'], hook_class=[F.Recorder]), description=desc)
+    P = ctrl.MS[0].levels[0].prob
+    u0 = P.dtype_u(P.init)
+    u0[:] = np.array([complex(a, b) for a, b in case['u0']])
+    u0_before = np.array(u0, copy=True)
+    N = Ln * nb
+    Tend = t0 + N * dt
+    uend, stats = ctrl.run(u0=u0, t0=t0, Tend=Tend)
+    log = [e for e in F.Recorder.log if e['ev'] == 'post_step']
+    r.label(f'steps{Ln}', f'blocks{nb}')
+    if Ln >= 2 and nb >= 2:
+        r.nontrivial([Ln, nb, dt, t0, case['num_nodes'], case['alpha']])
+    r.check(np.array_equal(np.asarray(u0), u0_before), 'caller-u0-modified', 'the initial value passed to run() was changed')
+    if any(e['iter'] >= 60 for e in log):
+        r.discard('ParaDiag iteration did not converge')
+        return
+    if not r.check(len(log) == N, 'paradiag-step-count', f'{len(log)} accepted steps, expected {N} (t0={t0}, dt={dt}, {Ln} steps x {nb} blocks)'):
+        return
+    log.sort(key=lambda e: e['time'])
+    scale = max(abs(t0), abs(Tend), 1.0)
+    for i, e in enumerate(log):
+        r.close(abs(e['time'] - (t0 + i * dt)), 4 * (i + 2) * np.finfo(float).eps * scale, 'paradiag-tiling', f'step {i} starts at {e["time"]!r}, expected {t0 + i * dt!r}')
+        r.check(e['dt'] == dt, 'paradiag-dt', f'step {i} has dt {e["dt"]!r}')
+        r.check(e['time'] < Tend, 'paradiag-start-beyond-Tend', f'step {i} starts at {e["time"]!r} >= Tend {Tend!r}')
+    r.check(np.array_equal(np.asarray(log[0]['u0']), u0_before), 'paradiag-first-start-value', 'first step does not start from the initial value')
+    vs = max(1.0, max(np.abs(e['uend']).max() for e in log))
+    for i in range(1, N):
+        prev, cur = log[i - 1], log[i]
+        if i % Ln == 0:
+            # across blocks the value is handed over as it is
+            r.check(np.array_equal(cur['u0'], prev['uend']), 'paradiag-block-chain', f'block starting at step {i} does not start from the previous end value (differs by {np.abs(cur["u0"] - prev["uend"]).max():.3e})')
+        else:
+            # inside a block all steps are solved simultaneously: start and previous end agree up to the stopping tolerance
+            r.close(np.abs(cur['u0'] - prev['uend']).max(), 1e3 * restol * vs, 'paradiag-inner-chain', f'step {i}')
+    r.check(np.array_equal(np.asarray(uend), log[-1]['uend']), 'paradiag-returned-value', 'returned value is not the end value of the last step')
+
+
+@st.composite
+def paradiag_cases(draw):
+    n = draw(st.integers(1, 2))
+    return {
+        'n_steps': draw(st.integers(1, 4)), 'nblocks': draw(st.integers(1, 4)), 'dt': draw(st.sampled_from([0.1, 0.25, 0.05, 0.3])), 't0': draw(st.sampled_from([0.0, 0.5, -1.0, 2.0])),
+        'num_nodes': draw(st.integers(1, 3)), 'alpha': draw(st.sampled_from([1e-2, 1e-4, 1e-6])), 'lambdas': [[-abs(draw(S.small_float(-2, 2))) - 0.05, draw(S.small_float(-2, 2))] for _ in range(n)],
+        'u0': [[draw(S.small_float(0.2, 1.5)), draw(S.small_float(-1, 1))] for _ in range(n)],
+    }  # fmt: skip
+
+
+
 def known_match(fid, clause, case, failure):
     tag, msg = failure
     if fid == 'F16' and tag == 'chain-value':
@@ -210,4 +280,7 @@ def cases(draw, kmax=120):
 
 
 def clauses(tier):
-    return [Clause('tiling', prop, strategy=cases(120 if tier == 'quick' else 1500), examples={'quick': 700, 'thorough': 12000})]
+    return [
+        Clause('tiling', prop, strategy=cases(120 if tier == 'quick' else 1500), examples={'quick': 700, 'thorough': 12000}),
+        Clause('paradiag-tiling', prop_paradiag, strategy=paradiag_cases(), examples={'quick': 200, 'thorough': 4000}),
+    ]
